@@ -133,6 +133,20 @@ func ParseFile(path, pkg string) (*File, error) {
 			continue
 		}
 		word, rest := splitWord(body)
+		for _, kw := range []string{"ensures", "requires", "invariant"} {
+			if strings.HasPrefix(word, kw+"[") {
+				rest = word[len(kw):] + " " + rest
+				word = kw
+			}
+		}
+		known := map[string]bool{"arith": true, "inline": true, "trusted": true, "bound": true, "note": true, "modular": true, "havoc": true}
+		if cur != nil && !known[word] && !strings.HasPrefix(word, "input:") {
+			switch word {
+			case "func", "pure", "requires", "ensures", "panics", "loop", "invariant", "decreases", "enum":
+			default:
+				return nil, fmt.Errorf("%s:%d: unknown contract directive %q", path, ln+1, word)
+			}
+		}
 		mkClause := func(kind, text string) (*Clause, error) {
 			tag := ""
 			if strings.HasPrefix(text, "[") {
